@@ -46,6 +46,7 @@ type report struct {
 	Gen      stage    `json:"gen"`
 	Gen2     *stage   `json:"gen2,omitempty"` // second in-process generation (same process)
 	Example  stage    `json:"example"`
+	Glue     string   `json:"glue_error,omitempty"`
 }
 
 func main() {
@@ -63,6 +64,7 @@ func main() {
 	out := fl.String("out", "", "output directory (module root)")
 	example := fl.Bool("example", false, "also run the example generator")
 	twice := fl.Bool("twice", false, "generate gen twice in this process")
+	glue := fl.Bool("glue", false, "also write the end-to-end glue program cmd/e2e/main.go")
 	fl.Parse(os.Args[2:])
 	switch os.Args[1] {
 	case "make":
@@ -79,6 +81,11 @@ func main() {
 			fatal(err)
 		}
 		rep := run(&d, *out, *example, *twice)
+		if *glue && rep.Accepted && rep.Gen.Error == "" && rep.Gen.Panic == "" {
+			if err := writeGlue(&d, raw, *out); err != nil {
+				rep.Glue = err.Error()
+			}
+		}
 		b, _ := json.Marshal(rep)
 		fmt.Println(string(b))
 	default:
@@ -191,6 +198,10 @@ require (
 replace goa.design/goa/v3 => /repo
 
 replace goa.design/clue => /verif/harness/stubs/clue
+
+require verifharness v0.0.0
+
+replace verifharness => /verif/harness
 `
 	if err := os.WriteFile(filepath.Join(out, "go.mod"), []byte(mod), 0o644); err != nil {
 		return err
